@@ -20,7 +20,8 @@ Proved (all field lists, oracles, paths):
 F13a: a group nested in another group's subtree can be delivered before the group that delivers its
 object; F13b: a group whose object was removed from the initial payload by null propagation from a
 sibling is still delivered (its path cannot be found). The merge theorem is stated for one object level
-over the Spec; the multi-level statement is `DeferSpec.check` (`Model/DeferSpec.lean`: the client's merge in
+over the Spec (`one_level_client_merge`: setting the keys of the groups' payloads into the initial object, in any
+arrival order, with the client merge `DeferSpec.setKeys` that the statement itself uses, gives the plain object); the multi-level statement is `DeferSpec.check` (`Model/DeferSpec.lean`: the client's merge in
 arrival order, equality with the plain result modulo the cut, errors, each group once, `hasNext`), an
 executable Lean definition that the driver evaluates on every generated case - on the implementation's own
 payload sequence and on the defer model's - against the implementation's plain run; here it is shown to
@@ -93,6 +94,77 @@ theorem no_defer_is_plain_execution (o : Oracle) (rootTy : String) (fields : Lis
   simp only [D.execDeferred, Impl.execRoot, hf]
   refine ⟨trivial, trivial, ?_⟩
   simp [D.runGroups]
+
+
+/-! ## the client's merge, one object level (`DeferSpec.setKeys` is the merge the statement `DeferSpec.check` uses) -/
+
+/-- the response keys of an object's deferred fields -/
+def deferredKeys (fs : List (FInfo × Shape)) : List String := (fs.filter isDeferredField).map (·.1.alias)
+
+/-- what the initial payload holds for the object: every deferred slot is still `null` -/
+def initialObject (fs : List (FInfo × Shape)) (plainVals : List (String × Out)) : List (String × Out) :=
+  DeferSpec.view (fun k => !(deferredKeys fs).contains k) plainVals
+
+/-- **Merging the groups of an object into its initial value restores the plain object - in every arrival order.**
+For every object whose plain completion succeeds (distinct response keys): every one of its deferred groups completes
+on its own, and setting the keys of the groups' payloads, in ANY order of the groups, into the initial object (deferred
+slots `null`) yields exactly the plain key/value list, same order of keys. -/
+theorem one_level_client_merge (o : Oracle) (ty : String) (p : Path) (fs : List (FInfo × Shape))
+    (plainVals : List (String × Out)) (h : (Spec.completeFields o ty fs p).1 = some plainVals)
+    (hnd : (fs.map (·.1.alias)).Nodup)
+    (order : List (String × List (FInfo × Shape))) (hperm : order.Perm (groupByLabel fs [])) :
+    (∀ g ∈ order, ((Spec.completeFields o ty g.2 p).1).isSome) ∧
+    (order.map fun g => ((Spec.completeFields o ty g.2 p).1).getD []).foldl DeferSpec.setKeys
+      (initialObject fs plainVals) = plainVals := by
+  have hgroups := groups_deliver_plain_values o ty p fs plainVals h
+  -- the plain object's keys are the fields' response keys
+  obtain ⟨vals0, hv0, _, hkeys0, _⟩ := subset_of_plain o ty p fs plainVals h fs (fun f hf => hf)
+  have hvals0 : vals0 = plainVals := by rw [h] at hv0; exact (Option.some.inj hv0).symm
+  subst hvals0
+  have hndk : (vals0.map (·.1)).Nodup := by rw [hkeys0]; exact hnd
+  have hg : ∀ g ∈ order, ∃ vals, (Spec.completeFields o ty g.2 p).1 = some vals ∧ (∀ kv ∈ vals, kv ∈ vals0) ∧
+      vals.map (·.1) = g.2.map (·.1.alias) := by
+    intro g hgm
+    obtain ⟨vals, a, b, c, _⟩ := hgroups g (hperm.mem_iff.mp hgm)
+    exact ⟨vals, a, b, c⟩
+  refine ⟨fun g hgm => by obtain ⟨vals, a, _⟩ := hg g hgm; simp [a], ?_⟩
+  unfold initialObject
+  rw [DeferSpec.setKeys_groups vals0 hndk _ _ (by
+    intro gv hgv kv hkv
+    obtain ⟨g, hgm, rfl⟩ := List.mem_map.mp hgv
+    obtain ⟨vals, a, b, _⟩ := hg g hgm
+    simp only [a, Option.getD_some] at hkv
+    exact b kv hkv)]
+  apply DeferSpec.view_all
+  intro e he
+  by_cases hd : (deferredKeys fs).contains e.1 = true
+  · -- a deferred key: its field lies in exactly one group, which is somewhere in `order`
+    have hmem : e.1 ∈ deferredKeys fs := by simpa using hd
+    obtain ⟨f, hf, hfa⟩ := List.mem_map.mp hmem
+    have hpart := each_deferred_field_in_exactly_one_group fs
+    have hfg : f ∈ (groupByLabel fs []).flatMap (·.2) := hpart.mem_iff.mpr hf
+    obtain ⟨g, hgm, hfin⟩ := List.mem_flatMap.mp hfg
+    have hgo : g ∈ order := hperm.mem_iff.mpr hgm
+    obtain ⟨vals, a, _, c⟩ := hg g hgo
+    have hk : e.1 ∈ vals.map (·.1) := by
+      rw [c, ← hfa]; exact List.mem_map.mpr ⟨f, hfin, rfl⟩
+    obtain ⟨kv, hkv, hkve⟩ := List.mem_map.mp hk
+    have : (order.map fun g => ((Spec.completeFields o ty g.2 p).1).getD []).any
+        (fun g => g.any (·.1 == e.1)) = true := by
+      apply List.any_eq_true.mpr
+      refine ⟨vals, List.mem_map.mpr ⟨g, hgo, by simp [a]⟩, ?_⟩
+      exact List.any_eq_true.mpr ⟨kv, hkv, by simp [hkve]⟩
+    simp [this]
+  · have hn : ¬ e.1 ∈ deferredKeys fs := by simpa using hd
+    simp only [Bool.or_eq_true, Bool.not_eq_true', List.contains_eq_mem, decide_eq_false_iff_not]
+    exact Or.inl hn
+
+/-- non-vacuity: an object `{ a  ... @defer(label: "L") { b } }` - the initial object holds `b: null`, the group's
+payload `{b: 2}` restores it -/
+example :
+    DeferSpec.setKeys (DeferSpec.view (fun k => !(["b"]).contains k) [("a", .leaf "1"), ("b", .leaf "2")])
+      [("b", .leaf "2")] = [("a", .leaf "1"), ("b", .leaf "2")] := by
+  simp [DeferSpec.setKeys, DeferSpec.view]
 
 /-! ## the response function's counters (`deferred`, `pendingDeferred`) -/
 
